@@ -106,9 +106,14 @@ def run_case(case: dict) -> dict:
     history = []
     t = 0.0
     nseg = rng.randint(2, 4)
+    tiny_updates = 0
     for i in range(nseg):
         if i > 0:
             upd = {p: round(rng.uniform(0.3, 2.0), 3) for p in rng.sample(sorted(params), rng.randint(1, 2))}
+            if rng.random() < 0.3:
+                # a nudge: the segment's values differ from the previous segment's by a relative 1e-6 .. 1e-5 only
+                upd = {p: params[p] * (1.0 + rng.choice([1e-6, -3e-6, 8e-6])) for p in upd}
+                tiny_updates += 1
             sim.update_parameters(upd)
             params = params | upd
             history.append({"update": upd})
@@ -128,6 +133,9 @@ def run_case(case: dict) -> dict:
         return core.result(sig=case["seed"], nontrivial=False, counters={"integration_failed": 1})
     # the model changes again after the result was taken
     later = {p: round(rng.uniform(0.3, 2.0), 3) for p in sorted(params)}
+    if rng.random() < 0.25:
+        later = {p: seg_params[0][p] * (1.0 + 5e-6) for p in sorted(params)}  # almost, but not, the first segment's values
+        tiny_updates += 1
     model.update_parameters(later)
 
     raw = [f.copy() for f in res.raw_variables]
@@ -223,7 +231,7 @@ def run_case(case: dict) -> dict:
     rng.shuffle(order)
     got: dict[int, list] = {}
     viols: list[dict] = []
-    counters = {"views_read": 0, "segments": nseg, "models_with_exactly_zero_coefficients": int(any(c["name"] == "vz" for c in spec["components"]))}
+    counters = {"views_read": 0, "segments": nseg, "parameter_sets_differing_by_1e-6_relative": tiny_updates, "models_with_exactly_zero_coefficients": int(any(c["name"] == "vz" for c in spec["components"]))}
     for i in order:
         r = reads[i]
         try:
